@@ -302,7 +302,19 @@ func (p *Prog) encodeShape(f *ssa.Function, depth int) *encShape {
 			}
 		}
 		if !hasEnc {
-			return
+			// a private helper of the same type that creates the (element) encoder itself and hands it back
+			makesEnc := false
+			if g != nil && g.Pkg == p.RootSSA && recvNamed(g) != nil && recvNamed(g) == recvNamed(f) && g.Object() != nil && !g.Object().Exported() {
+				res := g.Signature.Results()
+				for i := 0; i < res.Len(); i++ {
+					if isEncoderPtr(res.At(i).Type()) {
+						makesEnc = true
+					}
+				}
+			}
+			if !makesEnc {
+				return
+			}
 		}
 		if cc.IsInvoke() {
 			add(in, -1, typeName(cc.Value.Type())+"."+cc.Method.Name(), "child")
